@@ -34,16 +34,28 @@ guard of the watermark the handler was called with, minus fired timers, in trace
 namespace Rxn.C02
 open Rxn Rxn.Align
 
+/-- the snapshots of a trace -/
+def snapsOf : List Obs → List (Nat × KVf × Timers)
+  | [] => []
+  | Obs.snap id S T :: r => (id, S, T) :: snapsOf r
+  | _ :: r => snapsOf r
+
 /-- all actions of normal operation -/
 def Plain (as : List Act) : Prop := ∀ a ∈ as, a.plain = true
 
-/-- **Consistent cut.** Whenever a checkpoint `id` is taken with keyed state `S`, then for the trace `pre` before it:
+/-- **Consistent cut (partial with respect to undeployed callers, open finding D69).** The property speaks of the
+events "each upstream source runner delivered". `Operator.HandleEvent` never checks the sender id, so a caller that
+is not among the deployed `SourceRunnerIds` (senders `k … k+z-1`, e.g. a runner of the previous assembly that is
+still alive) is served like a runner: its keyed events are among `userProcs (procsOf pre)` below and enter the
+checkpoint (`consistent_cut_counterexample`). This statement holds for every schedule, undeployed callers included;
+`consistent_cut` adds the missing clause for schedules in which only deployed runners act.
+Whenever a checkpoint `id` is taken with keyed state `S`, then for the trace `pre` before it:
 `S` is the fold of exactly the entries the handler received (nothing is still pending in the batcher); the keyed
 events the handler received are exactly those waiting at the start of the epoch followed by the keyed events
 the consumer took from the senders, in the same order; and for every sender the last item taken from it is its
 barrier `id` — the snapshot contains the effects of precisely what each sender delivered up to its own barrier
 `id`, and of nothing a sender delivered after it. -/
-theorem consistent_cut (s0 : St) (hf : Fresh s0) (as : List Act) (hpl : Plain as) (pre post : List Obs) (id : Nat)
+theorem consistent_cut_partial (s0 : St) (hf : Fresh s0) (as : List Act) (hpl : Plain as) (pre post : List Obs) (id : Nat)
     (S : KVf) (T : Timers) (h : (runFrom s0 [] as).2 = pre ++ Obs.snap id S T :: post) :
     S = (entriesOf pre).foldl applyRec s0.kv ∧
     userOf (entriesOf pre) = userOf s0.pending ++ userProcs (procsOf pre) ∧
@@ -52,18 +64,64 @@ theorem consistent_cut (s0 : St) (hf : Fresh s0) (as : List Act) (hpl : Plain as
   rw [h] at hcut
   simpa [Cut] using cutOK_split hcut
 
+/-- the sender an action belongs to -/
+def actSender : Act → Option Nat
+  | .align sr _ => some sr
+  | .go sr => some sr
+  | .cancel sr => some sr
+  | _ => none
+
+/-- only deployed runners act in the schedule -/
+def RunnersOnly (k : Nat) (as : List Act) : Prop := ∀ a ∈ as, ∀ sr, actSender a = some sr → sr < k
+
+/-- **Consistent cut.** When only deployed runners act, a checkpoint `id` contains the effects of exactly what the
+deployed runners delivered up to their own barrier `id`: the clauses of `consistent_cut_partial`, and every item the
+consumer took before the snapshot is a deployed runner's. -/
+theorem consistent_cut (s0 : St) (hf : Fresh s0) (as : List Act) (hpl : Plain as) (hro : RunnersOnly s0.k as)
+    (pre post : List Obs) (id : Nat) (S : KVf) (T : Timers)
+    (h : (runFrom s0 [] as).2 = pre ++ Obs.snap id S T :: post) :
+    S = (entriesOf pre).foldl applyRec s0.kv ∧
+    userOf (entriesOf pre) = userOf s0.pending ++ userProcs (procsOf pre) ∧
+    (∀ sr, sr < s0.k → lastProc sr (procsOf pre) = some (Item.bar id)) ∧
+    ∀ x ∈ procsOf pre, x.1 < s0.k := by
+  obtain ⟨c1, c2, c3⟩ := consistent_cut_partial s0 hf as hpl pre post id S T h
+  refine ⟨c1, c2, c3, ?_⟩
+  intro x hx
+  have hx' : x ∈ procsOf (runFrom s0 [] as).2 := by
+    rw [h, procsOf_append]
+    exact List.mem_append_left _ hx
+  rcases runFrom_procs as s0 [] x hx' with hnil | hgo
+  · cases hnil
+  · exact hro _ hgo x.1 rfl
+
+/-- **Counterexample (D69).** Two deployed runners (0, 1) and one caller that is not deployed (2): the caller's keyed
+event is handed to the handler and checkpoint 1 contains it although no deployed runner delivered anything. -/
+def zombieCut : List Act :=
+  [.align 2 (.ev [0x61] 5 0), .go 2, .align 0 (.bar 1), .go 0, .align 1 (.bar 1), .go 1]
+
+theorem consistent_cut_counterexample :
+    ∃ pre id S T post, (runFrom { init 2 1 with z := 1 } [] zombieCut).2 = pre ++ Obs.snap id S T :: post ∧
+      Plain zombieCut ∧ ∃ e ∈ userOf (entriesOf pre), ¬ e.1 < 2 := by
+  have hc : firstCut [] [] (runFrom { init 2 1 with z := 1 } [] zombieCut).2 =
+      some ([(2, [0x61], 5, 0)], [(2, [0x61], 5, 0)]) := by rfl
+  obtain ⟨pre, id, S, T, post, e, hu, _⟩ := firstCut_spec _ _ _ _ _ hc
+  refine ⟨pre, id, S, T, post, e, by unfold Plain; decide, (2, [0x61], 5, 0), ?_, by decide⟩
+  simp only [List.nil_append] at hu
+  rw [← hu]
+  exact List.mem_cons_self
+
 /-- the same for a run from the initial state -/
 theorem consistent_cut_init (k b : Nat) (hk : 0 < k) (as : List Act) (hpl : Plain as) (pre post : List Obs) (id : Nat) (S : KVf)
     (T : Timers) (h : (run k b as).2 = pre ++ Obs.snap id S T :: post) :
     S = (entriesOf pre).foldl applyRec emptyKV ∧
     userOf (entriesOf pre) = userProcs (procsOf pre) ∧
     ∀ sr, sr < k → lastProc sr (procsOf pre) = some (Item.bar id) := by
-  have := consistent_cut (init k b) (init_fresh k b hk) as hpl pre post id S T h
+  have := consistent_cut_partial (init k b) (init_fresh k b hk) as hpl pre post id S T h
   simpa [init, userOf] using this
 
 /-- **The snapshot's timers.** The timer set of checkpoint `id` is exactly the store replayed from the trace before
 it: timers requested by the events the handler processed before the cut (each under the `SetTimer` guard of the
-watermark of that handler call) are in it, timers fired before the cut are not — and by `consistent_cut` nothing
+watermark of that handler call) are in it, timers fired before the cut are not — and by `consistent_cut_partial` nothing
 a sender delivered after its barrier `id` (in particular no watermark) contributed. -/
 theorem snapshot_timers (s0 : St) (hf : Fresh s0) (as : List Act) (hpl : Plain as) (pre post : List Obs) (id : Nat)
     (S : KVf) (T : Timers) (h : (runFrom s0 [] as).2 = pre ++ Obs.snap id S T :: post) :
@@ -193,42 +251,54 @@ theorem redeploy_is_fresh (s : St) (hlive : s.stopped = false) (haf : s.ackFails
     rw [hs]
 
 /-- **The cut of an epoch started by a redeploy (partial, open finding D45).**
-Full statement wanted by the property: after a redeploy every checkpoint of the new deployment is cut from what the
-new deployment's runners delivered in it, i.e. for every snapshot of the new epoch
-`userOf (entriesOf pre) = userProcs (procsOf pre)` where every taken item was handed in after the redeploy.
-The code does not give that: `HandleDeploy` keeps the event batcher and the calls that already passed alignment, so
-the keyed events waiting in the batcher at the redeploy (`userOf s.pending`) head the first cut of the new epoch and
-calls of the previous deployment are still taken (`epoch_cut_counterexample`). Proved here, for any state `s` with
-any history (failed acks included) in which the job is reachable: all guarantees of `consistent_cut` hold for the
-new epoch relative to the restored (empty) state, with exactly that surviving prefix. -/
+Full statement wanted by the property (`epoch_cut_of_clean_redeploy`): after a redeploy every checkpoint of the new
+deployment is cut from what was delivered in the new epoch — the handler's keyed events are exactly the taken ones,
+and every taken item was handed in by a call that started after the redeploy.
+The code does not give that: `HandleDeploy` keeps (1) the event batcher and (2) the calls that already passed
+alignment. Proved here, for any state `s` with any history (failed acks included) in which the job is reachable:
+all guarantees of `consistent_cut_partial` hold for the new epoch relative to the restored (empty) state, with exactly
+the two residues explicit — the keyed events waiting in the batcher at the redeploy (`userOf s.pending`) head the
+first cut, and an item taken without a call of its sender in the new epoch comes from a call that was past
+alignment at the redeploy. Both residues occur: `epoch_cut_counterexample`, `epoch_cut_counterexample_call`. -/
 theorem epoch_cut_partial (s : St) (hlive : s.stopped = false) (haf : s.ackFails = false) (hk : 0 < s.k)
-    (as : List Act)
-    (hpl : Plain as) (pre post : List Obs) (id : Nat) (S : KVf) (T : Timers)
+    (as : List Act) (hpl : Plain as) (pre post : List Obs) (id : Nat) (S : KVf) (T : Timers)
     (h : (runFrom (step s Act.redeploy).1 [] as).2 = pre ++ Obs.snap id S T :: post) :
     S = (entriesOf pre).foldl applyRec emptyKV ∧
     userOf (entriesOf pre) = userOf s.pending ++ userProcs (procsOf pre) ∧
     (∀ sr, sr < s.k → lastProc sr (procsOf pre) = some (Item.bar id)) ∧
-    T = timersOf [] pre := by
+    T = timersOf [] pre ∧
+    ∀ p1 sr it p2, pre = p1 ++ Obs.proc sr it :: p2 → sr < s.k + s.z →
+      (∃ b, Obs.aligned sr b ∈ p1) ∨ ∃ it0, s.slots sr = some (it0, true) := by
   obtain ⟨hfresh, _, _⟩ := redeploy_is_fresh s hlive haf hk
   have hst : step s Act.redeploy = redeploy s := by
     unfold step
     rw [if_neg (by simp [hlive])]
     rfl
-  obtain ⟨c1, c2, c3⟩ := consistent_cut _ hfresh as hpl pre post id S T h
+  obtain ⟨c1, c2, c3⟩ := consistent_cut_partial _ hfresh as hpl pre post id S T h
   have c4 := snapshot_timers _ hfresh as hpl pre post id S T h
   rw [hst] at c1 c2 c3 c4
-  exact ⟨c1, c2, c3, c4⟩
+  refine ⟨c1, c2, c3, c4, ?_⟩
+  intro p1 sr it p2 hp hsr
+  exact epoch_delivered s hlive as p1 (p2 ++ Obs.snap id S T :: post) sr it hsr (by rw [h, hp]; simp)
 
-/-- the full statement holds when the redeploy finds the batcher empty and no call past alignment — the exact
-condition excluded above; then every item taken in the new epoch was also handed in during it -/
+/-- **The cut of an epoch after a clean redeploy** — the full statement, under exactly the condition excluded above:
+the redeploy finds the batcher empty and no call past alignment. Then the handler's keyed events are exactly the
+taken ones and every item taken before a checkpoint of the new deployment was handed in by a call that started in
+the new epoch: nothing of the previous deployment is in its checkpoints. -/
 theorem epoch_cut_of_clean_redeploy (s : St) (hlive : s.stopped = false) (haf : s.ackFails = false)
-    (hk : 0 < s.k) (hempty : s.pending = []) (as : List Act) (hpl : Plain as) (pre post : List Obs) (id : Nat) (S : KVf)
+    (hk : 0 < s.k) (hempty : s.pending = []) (hnocall : ∀ sr it, s.slots sr ≠ some (it, true))
+    (as : List Act) (hpl : Plain as) (pre post : List Obs) (id : Nat) (S : KVf)
     (T : Timers) (h : (runFrom (step s Act.redeploy).1 [] as).2 = pre ++ Obs.snap id S T :: post) :
-    userOf (entriesOf pre) = userProcs (procsOf pre) := by
-  have := (epoch_cut_partial s hlive haf hk as hpl pre post id S T h).2.1
-  simpa [hempty, userOf] using this
+    userOf (entriesOf pre) = userProcs (procsOf pre) ∧
+    ∀ p1 sr it p2, pre = p1 ++ Obs.proc sr it :: p2 → sr < s.k + s.z → ∃ b, Obs.aligned sr b ∈ p1 := by
+  obtain ⟨_, c2, _, _, c5⟩ := epoch_cut_partial s hlive haf hk as hpl pre post id S T h
+  refine ⟨by simpa [hempty, userOf] using c2, ?_⟩
+  intro p1 sr it p2 hp hsr
+  rcases c5 p1 sr it p2 hp hsr with hal | ⟨it0, hs⟩
+  · exact hal
+  · exact absurd hs (hnocall sr it0)
 
-/-- **Counterexample (D45).** Sender 0's keyed event waits in the batcher (batch size 3) when the operator is
+/-- **Counterexample (D45, batcher).** Sender 0's keyed event waits in the batcher (batch size 3) when the operator is
 redeployed; in the new epoch both senders only deliver barrier 1 — and checkpoint 1 of the new deployment contains
 the old event: the handler received a keyed event that no runner delivered in this epoch. -/
 def leakState : St := (run 2 3 [.align 0 (.ev [0x61] 7 0), .go 0]).1
@@ -244,6 +314,21 @@ theorem epoch_cut_counterexample :
   simp only [List.nil_append] at hu hv
   rw [← hu, ← hv]
   decide
+
+/-- **Counterexample (D45, call past alignment).** The batcher is empty, but sender 1's call with a keyed event (payload
+8) has passed alignment when the operator is redeployed: in the new epoch the consumer takes that item although
+sender 1 started no call in this epoch, and checkpoint 1 of the new deployment contains it. -/
+def leakState2 : St := (run 2 1 [.align 1 (.ev [0x62] 8 0)]).1
+def leakEpoch2 : List Act := [.go 1, .align 0 (.bar 1), .go 0, .align 1 (.bar 1), .go 1]
+
+theorem epoch_cut_counterexample_call :
+    leakState2.pending = [] ∧ Plain leakEpoch2 ∧
+    (∃ p1 sr it p2, (runFrom (step leakState2 Act.redeploy).1 [] leakEpoch2).2 = p1 ++ Obs.proc sr it :: p2 ∧
+      ∀ b, Obs.aligned sr b ∉ p1) ∧
+    (snapsOf (runFrom (step leakState2 Act.redeploy).1 [] leakEpoch2).2).map (fun x => (x.1, x.2.1 [0x62])) = [(1, [8])] := by
+  have hd : deliveredHere [] (runFrom (step leakState2 Act.redeploy).1 [] leakEpoch2).2 = false := by rfl
+  obtain ⟨p1, sr, it, p2, e, _, hna⟩ := deliveredHere_false _ _ hd
+  exact ⟨by decide, by unfold Plain; decide, ⟨p1, sr, it, p2, e, hna⟩, by decide⟩
 
 /-- with the redeploy the property asks for (`redeploySpec`: batcher emptied, every call in flight turned away) the
 new epoch starts clean: fresh, nothing pending, no call in flight -/
@@ -319,7 +404,7 @@ theorem consistent_cut_with_holds (s0 : St) (hf : Fresh s0) (has : List HAct) (h
     T = timersOf s0.timers pre := by
   obtain ⟨as, hp, _, e2⟩ := held_schedule_is_plain_schedule s0 has hpl
   rw [e2] at h
-  obtain ⟨c1, c2, c3⟩ := consistent_cut s0 hf as hp pre post id S T h
+  obtain ⟨c1, c2, c3⟩ := consistent_cut_partial s0 hf as hp pre post id S T h
   exact ⟨c1, c2, c3, snapshot_timers s0 hf as hp pre post id S T h⟩
 
 /-! ## what the code guarantees when the ack to the job fails -/
@@ -373,11 +458,6 @@ theorem stale_record_rejects (s : St) (sr id cid : Nat) (hlive : s.stopped = fal
   exact ⟨hc, rfl⟩
 
 /-! ## non-vacuity -/
-
-def snapsOf : List Obs → List (Nat × KVf × Timers)
-  | [] => []
-  | Obs.snap id S T :: r => (id, S, T) :: snapsOf r
-  | _ :: r => snapsOf r
 
 def parkedOf : List Obs → List Nat
   | [] => []
